@@ -19,11 +19,32 @@ open Pybtex Pybtex.IO
 
 /-! ### JSON helpers -/
 
-def bytesToJson (b : Bytes) : Json := arr (b.map fun x => nat x.toNat)
+def hexDigit (n : Nat) : Char := if n < 10 then Char.ofNat (48 + n) else Char.ofNat (87 + n)
+
+/-- bytes travel as lower-case hex strings -/
+def bytesToJson (b : Bytes) : Json :=
+  Json.str (String.ofList (b.flatMap fun x => [hexDigit (x.toNat / 16), hexDigit (x.toNat % 16)]))
+
+def hexVal (c : Char) : Except String Nat :=
+  if '0' ≤ c ∧ c ≤ '9' then pure (c.toNat - 48)
+  else if 'a' ≤ c ∧ c ≤ 'f' then pure (c.toNat - 87)
+  else throw "bad hex digit"
+
+def hexToBytes : List Char → Except String Bytes
+  | [] => pure []
+  | [_] => throw "odd number of hex digits"
+  | a :: b :: r => do
+    let x ← hexVal a
+    let y ← hexVal b
+    let rest ← hexToBytes r
+    pure (UInt8.ofNat (16 * x + y) :: rest)
 
 def jsonToBytes (j : Json) : Except String Bytes := do
-  let a ← j.getArr?
-  a.toList.mapM fun x => do pure (UInt8.ofNat (← x.getNat?))
+  match j with
+  | .str h => hexToBytes h.toList
+  | _ =>
+    let a ← j.getArr?
+    a.toList.mapM fun x => do pure (UInt8.ofNat (← x.getNat?))
 
 def getBytes (j : Json) (k : String) : Except String Bytes := do jsonToBytes (← j.getObjVal? k)
 
@@ -209,28 +230,22 @@ def epContent (files : List (Str × Bytes)) (h : Path) : Bytes :=
   | some f => f.2
   | none => []
 
-def parseStreamArg (j : Json) : Except String Stream := do
-  let k ← (← j.getObjVal? "kind").getStr?
-  match k with
-  | "text" => pure (.text (← getStr j "data"))
-  | "binary" => pure (.binary (← getBytes j "data"))
-  | _ => throw s!"unknown stream kind {k}"
-
 def epReply (events : List Event) (result : Json) : Json :=
   obj [("events", arr (events.map eventJ)), ("result", result)]
 
 def readEntry (k : ReaderKind) (c : Codec) (encName : Str) (env : Env Path) (files : List (Str × Bytes))
-    (j : Json) : Except String Json := do
+    (s : Str) (b : Bytes) (j : Json) : Except String Json := do
   let entry ← (← j.getObjVal? "entry").getStr?
+  -- a stream of the kind the class asks for, holding the document
+  let own : Stream := if k.unicodeIO then .text s else .binary b
   let res : List Event × Except (RErr Unit) (List (String × Stream)) ← match entry with
-    | "parse_string" => pure ([], parseString k recReader c [] (← getStr j "s"))
-    | "parse_bytes" => pure ([], parseBytes k recReader c [] (← getBytes j "b"))
-    | "parse_stream" => pure ([], parseStream k recReader [] (← parseStreamArg (← j.getObjVal? "stream")))
+    | "parse_string" => pure ([], parseString k recReader c [] s)
+    | "parse_bytes" => pure ([], parseBytes k recReader c [] b)
+    | "parse_stream" => pure ([], parseStream k recReader [] own)
     | "parse_file_path" =>
       pure (parseFile k recReader c encName env (epContent files) [] (.path (← getStr j "path")) none)
     | "parse_file_stream" =>
-      pure (parseFile k recReader c encName env (epContent files) []
-        (.stream (← parseStreamArg (← j.getObjVal? "stream"))) none)
+      pure (parseFile k recReader c encName env (epContent files) [] (.stream own) none)
     | "parse_files" =>
       pure (parseFiles k recReader c encName env (epContent files) (← getOptStr j "suffix") []
         (← getStrList j "bases"))
@@ -273,7 +288,10 @@ def entrypoints (j : Json) : Except String Json := do
   if side == "read" then
     match readerKindOf u ov with
     | none => pure (obj [("out", Json.str "unknown-wiring")])
-    | some k => pure (obj [("out", arr (← entries.mapM (readEntry k c encName env files)))])
+    | some k =>
+      let s ← getStr j "s"
+      let b ← getBytes j "b"
+      pure (obj [("out", arr (← entries.mapM (readEntry k c encName env files s b)))])
   else
     match writerKindOf u ov with
     | none => pure (obj [("out", Json.str "unknown-wiring")])
